@@ -122,7 +122,7 @@ def configs(draw, algo: str):
         "algo": algo,
         "n_x": n_x,
         "structure": draw(st.sampled_from(["single", "chain", "idf", "idf"])),
-        "observable": draw(st.sampled_from([False, True, True])),
+        "observable": draw(st.booleans()),
         "bounds": draw(st.integers(0, len(BOUNDS) - 1)),
         "x0": draw(st.lists(st.integers(0, GRID), min_size=n_x, max_size=n_x)),
         "a": draw(st.lists(st.integers(-2, 4), min_size=n_x, max_size=n_x)),
@@ -133,13 +133,15 @@ def configs(draw, algo: str):
         "s": draw(st.lists(st.sampled_from([-2, -1, 1, 2]), min_size=n_x, max_size=n_x)),
         "t": draw(st.integers(0, 1)),
         "r": draw(st.integers(-2, 4)),
-        "policy": draw(st.sampled_from(["call", "iter", "call", "iter", "both"])),
+        "policy": draw(st.sampled_from(["call", "iter", "iter", "both"])),
         "initial": draw(st.sampled_from(["absent", "absent", "prefix_load", "prefix_load", "prefix_erase", "warm_load", "warm_load"])),
         # "warm_load": the script first executes the scenario without backup (3 custom samples / the algorithm with
         # max_iter=3), then calls set_optimization_history_backup(load=True) on a non-empty database and executes again
         "warm_samples": draw(st.lists(st.lists(st.integers(0, GRID), min_size=n_x, max_size=n_x), min_size=3, max_size=3)),
         "prefix_at": draw(st.integers(0, 30)),
-        "normalize": draw(st.booleans()) if kind == "mdo" else False,
+        "normalize": draw(st.sampled_from([False, False, True])) if kind == "mdo" else False,
+        # design space with bounds only: the drivers start from the centre of the bounds
+        "no_x0": draw(st.booleans()) if kind == "mdo" else False,
         "budget": budget,
         "reset": draw(st.sampled_from([False, False, False, True])),
         "maximize": draw(st.sampled_from([False, False, False, True])),
@@ -149,7 +151,7 @@ def configs(draw, algo: str):
         p["tols_off"] = draw(st.booleans())
     if kind == "doe":
         # interrupted parallel DOE (n_processes=2) with transient failures of some samples: see _case_parallel
-        p["parallel"] = draw(st.sampled_from([False, False, True]))
+        p["parallel"] = draw(st.booleans())
         p["eval_jac"] = False if p["parallel"] else draw(st.booleans())
         p["seed"] = draw(st.integers(1, 5))
         if algo == "CustomDOE":
@@ -287,7 +289,10 @@ def build_scenario(p, hook):
 
     lb, ub = BOUNDS[p["bounds"]]
     ds = DesignSpace()
-    ds.add_variable("x", p["n_x"], lower_bound=lb, upper_bound=ub, value=_grid_point(p, p["x0"]))
+    if p.get("no_x0"):
+        ds.add_variable("x", p["n_x"], lower_bound=lb, upper_bound=ub)
+    else:
+        ds.add_variable("x", p["n_x"], lower_bound=lb, upper_bound=ub, value=_grid_point(p, p["x0"]))
     scenario = create_scenario(
         make_disciplines(p, hook), "f", ds, formulation_name="IDF" if structure_of(p) == "idf" else "DisciplinaryOpt",
         scenario_type="MDO" if p["kind"] == "mdo" else "DOE", maximize_objective=bool(p.get("maximize", False)),
@@ -674,7 +679,7 @@ def descriptor(p) -> str:
     return "/".join([
         p["kind"], p["algo"], structure_of(p) + ("+obs" if p.get("observable") else ""), p.get("diff", "user"), f"x{p['n_x']}", p["policy"], p["initial"],
         "norm" if p["normalize"] else "phys", f"b{p['budget']}", "reset" if p["reset"] else "keep",
-        "max" if p.get("maximize") else "min", *(["parallel"] if p.get("parallel") else []),
+        "max" if p.get("maximize") else "min", *(["parallel"] if p.get("parallel") else []), *(["no_x0"] if p.get("no_x0") else []),
     ])
 
 
@@ -723,6 +728,7 @@ def _check_restarts(p, ctx, desc, ref, dirs, backups, workers, warm, n_full, bud
 
         # no rework
         in_backup = {phys_key(x): (x, vals) for x, vals in backup}
+        ref_keys = {(str(x.dtype), x.tobytes()) for x, _ in ref["final"]}
         n_replayed = 0
         for ev in rs["events"]:
             if ev[0] != "exec" or ev[1] <= rs["n_exec_before"]:
@@ -732,6 +738,11 @@ def _check_restarts(p, ctx, desc, ref, dirs, backups, workers, warm, n_full, bud
             if hit is None:
                 continue
             x_b, vals = hit
+            if not same_key(np.asarray(x), x_b) and (str(np.asarray(x).dtype), np.asarray(x).tobytes()) in ref_keys:
+                # same physical point under a key of another dtype (complex-step runs mix complex128 and float64
+                # requests of one point): the uninterrupted run evaluates it under this key as well
+                ctx.cls("same_point_under_two_key_dtypes")
+                continue
             n_replayed += 1
             i = exact.get((str(x_b.dtype), x_b.tobytes()))
             new_names = set(final[i][1]) - set(vals) if i is not None else set()
@@ -944,7 +955,7 @@ def _case(p, ctx, work, workers):
     ctx.cls(f"kind_{p['kind']}", f"algo_{p['algo']}", f"policy_{policy}", f"initial_{initial_mode}", f"structure_{structure_of(p)}", f"differentiation_{p.get('diff', 'user')}",
             "with_observable" if p.get("observable") else "without_observable",
             "normalized" if p["normalize"] else "not_normalized", "restart_reset_counters" if p["reset"] else "restart_keeps_counters",
-            "maximize" if p.get("maximize") else "minimize")
+            "maximize" if p.get("maximize") else "minimize", *(["design_space_without_current_value"] if p.get("no_x0") else []))
     if n_crash <= 0:
         ctx.cls("loaded_prefix_leaves_nothing_to_execute")
         ctx.evaluations -= 1  # no crash point in this configuration
@@ -1008,7 +1019,7 @@ def _case(p, ctx, work, workers):
 
 # one oracle (one Hypothesis stream, one bucket of failures) per algorithm: every run covers all six
 ORACLES = {f"crash_{algo}": case_crash for algo in [*MDO_ALGOS, *DOE_ALGOS]}
-QUICK = {"SLSQP": 5, "L-BFGS-B": 3, "NLOPT_COBYLA": 4, "LHS": 3, "PYDOE_FULLFACT": 3, "CustomDOE": 3}
+QUICK = {"SLSQP": 7, "L-BFGS-B": 3, "NLOPT_COBYLA": 6, "LHS": 3, "PYDOE_FULLFACT": 3, "CustomDOE": 4}
 THOROUGH = {"SLSQP": 8, "L-BFGS-B": 5, "NLOPT_COBYLA": 6, "LHS": 5, "PYDOE_FULLFACT": 4, "CustomDOE": 5}
 
 
